@@ -278,6 +278,7 @@ func c03RunSet(c *Ctx, s *c03Set, nEnc int) {
 	c03ShallowCopyPRNG(c, s)
 	c03Unsupported(c, s)
 	c03DecryptJunk(c, s, c.Scale(6, 16))
+	c03DecryptReusedReceiver(c, s)
 	c03Statistics(c, s)
 }
 
